@@ -57,7 +57,7 @@ func vpConfig(topo, variant int) (string, []string) {
 
 func (w *vpWorld) reload(text string) error {
 	_, err := w.plugin.ensureIPAMConf(&w.plugin.lastIPConf, text)
-	floatingip.VerifRotate(w.plugin.ipam)
+	floatingip.VerifRotate(w.innerIPAM())
 	return err
 }
 
@@ -111,7 +111,7 @@ func VerifC09_q_reservedNeverAllocated() {
 			reserved = true
 		}
 		if reserved && i == deliverAt {
-			_ = floatingip.VerifHandleFIPEvent(w.plugin.ipam, obj, true)
+			_ = floatingip.VerifHandleFIPEvent(w.innerIPAM(), obj, true)
 		}
 		name, ok := w.scheduleSts(i)
 		if ok {
@@ -160,7 +160,7 @@ func VerifC09_q_reloadLossless() {
 	}
 	for _, b := range before {
 		if !vpHas(kept, b.IP) {
-			inA, inU := floatingip.VerifTables(w.plugin.ipam, b.IP)
+			inA, inU := floatingip.VerifTables(w.innerIPAM(), b.IP)
 			_, inStore := w.store.Objs[b.IP]
 			verifAssert("C09/reload-drops-deconfigured", !inA && !inU && !inStore, "a de-configured IP survived the reload in memory or in the store: "+b.IP)
 		}
@@ -207,7 +207,7 @@ func VerifC09_q_reloadWhileAllocating() {
 	if _, err := w.plugin.updateConfigMap(); err != nil {
 		return
 	}
-	floatingip.VerifRotate(w.plugin.ipam)
+	floatingip.VerifRotate(w.innerIPAM())
 	ran := w.interferer == nil
 	w.interferer = nil
 	verifReach("reload-returned")
@@ -247,7 +247,7 @@ func VerifC09_q_reservedVsRangeRequest() {
 	w.store.Objs[r] = obj
 	deliverEarly := nondetBool()
 	if deliverEarly {
-		_ = floatingip.VerifHandleFIPEvent(w.plugin.ipam, obj, true)
+		_ = floatingip.VerifHandleFIPEvent(w.innerIPAM(), obj, true)
 	}
 	// requested ranges: one range over all addresses, or the reserved address alone plus the rest
 	ranges := `[["` + w.ips[0] + `~` + w.ips[len(w.ips)-1] + `"]]`
@@ -269,7 +269,7 @@ func VerifC09_q_reservedVsRangeRequest() {
 		if !deliverEarly && nondetBool() {
 			// whatever the store emitted meanwhile reaches the IPAM now: the reservation (if it still exists)
 			if o, ok := w.store.Objs[r]; ok {
-				_ = floatingip.VerifHandleFIPEvent(w.plugin.ipam, o, true)
+				_ = floatingip.VerifHandleFIPEvent(w.innerIPAM(), o, true)
 			}
 		}
 	}
